@@ -488,7 +488,11 @@ def evalExpr (ctor : String → String → CRes GoVal) (zero : Ty → CRes GoVal
   | t, .mapLit _ =>
     if t = .any ∨ t = .gmap .str .any then .unsup "map literal assigned to any / map[string]any"
     else .cerr "cannot use map[string]interface {}{…} as the field's type"
-  | t, .emptySlice e => if t = .slice e then .ok (.slice []) else .cerr "slice literal of another type"
+  | t, .emptySlice e =>
+    if t = .slice e then
+      -- `[]uint8{}` is `[]byte{}`: json.Marshal encodes it as the (empty) base64 string
+      (if e = .int "uint8" then .ok (.str "") else .ok (.slice []))
+    else .cerr "slice literal of another type"
   | t, .emptyMap k v => if t = .gmap k v then .ok (.gomap []) else .cerr "map literal of another type"
   | t, .ident p o mname =>
     if t = .named p o then
